@@ -248,6 +248,15 @@ fn get_match_statically_known(
 
     let query_variable = |query: &expr::StaticallyKnownVariableQuery|
     {
+        // The address builtins are never statically known, even if
+        // the program also declares a symbol with one of their names
+        if query.hierarchy_level == 0 &&
+            query.hierarchy.len() == 1 &&
+            (query.hierarchy[0] == "$" || query.hierarchy[0] == "pc")
+        {
+            return false;
+        }
+
         match decls.symbols.try_get_by_name(
             symbol_ctx,
             query.hierarchy_level,
